@@ -11,6 +11,10 @@
    * file I/O is complete (pread/pwrite transfer what is available/asked; no EINTR, ENOSPC);
    * a memcpy outside [0, len) of a window is the outcome EXF_CRASH (the real code has undefined behaviour);
    * no data listener (dlsnr = 0), no locks (single caller), the file is opened read-write.
+   The operating system may REFUSE to grow the file (RLIMIT_FSIZE -> EFBIG, ENOSPC, EDQUOT): every function
+   that can reach iwp_fallocate takes an oracle `ok : os_ok`; `ok n = false` means ftruncate/fallocate to n
+   bytes fails.  _exfile_truncate_lw then takes its `truncfail` exit.  Shrinking is never refused, and
+   pwrite never extends the file in the repaired tree (every writer ensures the size first).
    Three places where the current tree may be in its unrepaired or repaired form are switched by the
    behavioural facts EXF_MUL_GE_NSIZE / EXF_COPY_ENSURES / EXF_COPY_SRC_CHECKED (tools/probes/probe_exf.c),
    see notes/exf.md. *)
@@ -43,6 +47,11 @@ Definition fixed_quirks : quirks := mkQ true true true.
 Definition orig_quirks : quirks := mkQ false false false.
 
 Definition EXF_CRASH : Z := -1.
+
+(* the operating system as seen by one call: may the file grow to n bytes? *)
+Definition os_ok := Z -> bool.
+Definition os_any : os_ok := fun _ => true.                 (* no refusal *)
+Definition os_limit (l : Z) : os_ok := fun n => n <=? l.    (* RLIMIT_FSIZE = l *)
 
 Record slot := mkSlot {
   s_off : Z;                            (* MMAPSLOT.off *)
@@ -105,18 +114,20 @@ Definition initmmap_slot (ps fsz : Z) (s : slot) : slot :=
 
 Definition initmmap (ps fsz : Z) (ss : list slot) : list slot := map (initmmap_slot ps fsz) ss.
 
-(* _exfile_truncate_lw (no listener, write mode, I/O succeeds) *)
-Definition truncate_lw (st : exf) (size : Z) : Z * exf :=
+(* _exfile_truncate_lw (no listener, write mode).  A refused growth: impl->fsize = size; iwp_fallocate fails;
+   truncfail: impl->fsize = old_size; _exfile_initmmap_lw(f) - the windows are re-derived from the old size *)
+Definition truncate_lw (ok : os_ok) (st : exf) (size : Z) : Z * exf :=
   let size := IW_ROUNDUP (uw 64 size) (psize st) in
   let old := fsize st in
   if old =? size then (0, st)
   else if old <? size then
     if negb (maxoff st =? 0) && (size >? maxoff st) then (EXF_E_MAXOFF, st)
+    else if negb (ok size) then (EXF_E_IO, set_slots st (initmmap (psize st) old (slots st)))
     else (0, mkExf (ftrunc (file st) size) size (maxoff st) (psize st) (initmmap (psize st) size (slots st)) (pol st))
   else (0, mkExf (ftrunc (file st) size) size (maxoff st) (psize st) (initmmap (psize st) size (slots st)) (pol st)).
 
 (* _exfile_ensure_size_lw *)
-Definition ensure_size_lw (q : quirks) (st : exf) (sz : Z) : Z * exf :=
+Definition ensure_size_lw (q : quirks) (ok : os_ok) (st : exf) (sz : Z) : Z * exf :=
   if fsize st >=? uw 64 sz then (0, st)
   else
     let '(nsz, pol') := policy_call q (psize st) (pol st) sz (fsize st) in
@@ -124,8 +135,8 @@ Definition ensure_size_lw (q : quirks) (st : exf) (sz : Z) : Z * exf :=
     if (nsz <? sz) || negb (aligned nsz (psize st)) then (EXF_E_POLFAIL, st1)
     else if negb (maxoff st =? 0) && (uw 64 nsz >? maxoff st) then
       let nsz := sw 64 (maxoff st) in
-      if nsz <? sz then (EXF_E_MAXOFF, st1) else truncate_lw st1 nsz
-    else truncate_lw st1 nsz.
+      if nsz <? sz then (EXF_E_MAXOFF, st1) else truncate_lw ok st1 nsz
+    else truncate_lw ok st1 nsz.
 
 (* ---------------------------------------------------------------------------------------------- *)
 (* access through one window; position p is relative to the window start *)
@@ -247,13 +258,13 @@ Fixpoint read_pieces (ps : Z) (pcs : list piece) (f : list Z) (ss : list slot) :
   end.
 
 (* _exfile_write: rc, *sp, state *)
-Definition exfile_write (q : quirks) (st : exf) (off : Z) (data : list Z) : Z * Z * exf :=
+Definition exfile_write (q : quirks) (ok : os_ok) (st : exf) (off : Z) (data : list Z) : Z * Z * exf :=
   let siz := zlen data in
   let end_ := sw 64 (off + siz) in
   if (off <? 0) || (end_ <? 0) then (EXF_E_OOB, 0, st)
   else if negb (maxoff st =? 0) && (uw 64 (off + siz) >? maxoff st) then (EXF_E_MAXOFF, 0, st)
   else
-    let '(rc, st1) := if end_ >? fsize st then ensure_size_lw q st end_ else (0, st) in
+    let '(rc, st1) := if end_ >? fsize st then ensure_size_lw q ok st end_ else (0, st) in
     if negb (rc =? 0) then (rc, 0, st1)
     else
       match write_pieces (psize st1) (split_all (slots st1) off siz) data (file st1) (slots st1) with
@@ -292,8 +303,8 @@ Definition file_copy (f : list Z) (off siz noff : Z) : Z * list Z :=
   else (0, copy_loop (S (Z.to_nat siz)) f off siz noff 0).
 
 (* _exfile_copy *)
-Definition exfile_copy (q : quirks) (st : exf) (off siz noff : Z) : Z * exf :=
-  let '(rc0, st0) := if q_copy_ensures q then ensure_size_lw q st (sw 64 (noff + siz)) else (0, st) in
+Definition exfile_copy (q : quirks) (ok : os_ok) (st : exf) (off siz noff : Z) : Z * exf :=
+  let '(rc0, st0) := if q_copy_ensures q then ensure_size_lw q ok st (sw 64 (noff + siz)) else (0, st) in
   if negb (rc0 =? 0) then (rc0, st0)
   else
     let via_file := let '(rc, f') := file_copy (file st0) off siz noff in (rc, set_file st0 f') in
@@ -370,13 +381,14 @@ Fixpoint probe_mmap (ss : list slot) (off : Z) : Z * Z :=
 (* _exfile_remap_all *)
 Definition remap_all (st : exf) : exf := set_slots st (initmmap (psize st) (fsize st) (slots st)).
 
-(* iwfs_exfile_open on an existing kernel file `f` (empty list = new file), write mode *)
-Definition exfile_open (f : list Z) (initial maxoff_opt : Z) (p : policy) : Z * exf :=
+(* iwfs_exfile_open on an existing kernel file `f` (empty list = new file), write mode; when the initial
+   growth is refused the handle is not created (the caller must ignore the state returned with rc <> 0) *)
+Definition exfile_open (ok : os_ok) (f : list Z) (initial maxoff_opt : Z) (p : policy) : Z * exf :=
   let ps := EXF_PSIZE in
   let mo := if maxoff_opt >=? ps then IW_ROUNDOWN maxoff_opt ps else 0 in
   let st := mkExf f (zlen f) mo ps [] p in
-  if zlen f <? initial then truncate_lw st initial
-  else if negb (aligned (zlen f) ps) then truncate_lw st (zlen f)
+  if zlen f <? initial then truncate_lw ok st initial
+  else if negb (aligned (zlen f) ps) then truncate_lw ok st (zlen f)
   else (0, st).
 
 (* ---------------------------------------------------------------------------------------------- *)
@@ -394,23 +406,23 @@ Inductive op :=
 
 Record out := mkOut { o_rc : Z; o_sp : Z; o_data : list Z }.
 
-Definition step (q : quirks) (st : exf) (o : op) : out * exf :=
+Definition step (q : quirks) (ok : os_ok) (st : exf) (o : op) : out * exf :=
   match o with
-  | OWrite off d => let '(rc, sp, st') := exfile_write q st off d in (mkOut rc sp [], st')
+  | OWrite off d => let '(rc, sp, st') := exfile_write q ok st off d in (mkOut rc sp [], st')
   | ORead off n => let '(rc, sp, b) := exfile_read st off n in (mkOut rc sp b, st)
-  | OCopy off siz noff => let '(rc, st') := exfile_copy q st off siz noff in (mkOut rc 0 [], st')
-  | OTruncate sz => let '(rc, st') := truncate_lw st sz in (mkOut rc 0 [], st')
-  | OEnsure sz => let '(rc, st') := ensure_size_lw q st sz in (mkOut rc 0 [], st')
+  | OCopy off siz noff => let '(rc, st') := exfile_copy q ok st off siz noff in (mkOut rc 0 [], st')
+  | OTruncate sz => let '(rc, st') := truncate_lw ok st sz in (mkOut rc 0 [], st')
+  | OEnsure sz => let '(rc, st') := ensure_size_lw q ok st sz in (mkOut rc 0 [], st')
   | OAddMmap off maxlen flags => let '(rc, st') := add_mmap_lw st off maxlen flags in (mkOut rc 0 [], st')
   | ORemoveMmap off => let '(rc, st') := remove_mmap_lw st off in (mkOut rc 0 [], st')
   | ORemap => (mkOut 0 0 [], remap_all st)
   | OSync => (mkOut 0 0 [], st)
   end.
 
-Fixpoint run (q : quirks) (st : exf) (os : list op) : list out * exf :=
+Fixpoint run (q : quirks) (ok : os_ok) (st : exf) (os : list op) : list out * exf :=
   match os with
   | [] => ([], st)
-  | o :: tl => let '(r, st1) := step q st o in let '(rs, st2) := run q st1 tl in (r :: rs, st2)
+  | o :: tl => let '(r, st1) := step q ok st o in let '(rs, st2) := run q ok st1 tl in (r :: rs, st2)
   end.
 
 (* ---------------------------------------------------------------------------------------------- *)
@@ -431,25 +443,31 @@ Record flat := mkFlat { a_bytes : list Z; a_maxoff : Z; a_pol : policy }.
 
 Definition spec_resize (a : flat) (n : Z) (p : policy) : flat := mkFlat (ftrunc (a_bytes a) n) (a_maxoff a) p.
 
+(* a size change the rules allow: carried out, unless it is a growth the operating system refuses - then the
+   answer is an I/O error and not one byte changes (the policy has been consulted: its context may have advanced) *)
+Definition spec_grow (ok : os_ok) (a : flat) (n : Z) (p : policy) : Z * flat :=
+  if (zlen (a_bytes a) <? n) && negb (ok n) then (EXF_E_IO, mkFlat (a_bytes a) (a_maxoff a) p)
+  else (0, spec_resize a n p).
+
 (* size request: grow (never shrink) to the size the policy names, limited by maxoff *)
-Definition spec_ensure (ps : Z) (a : flat) (sz : Z) : Z * flat :=
+Definition spec_ensure (ps : Z) (ok : os_ok) (a : flat) (sz : Z) : Z * flat :=
   if zlen (a_bytes a) >=? sz then (0, a)
   else
     let '(n, p) := spec_policy ps (a_pol a) sz (zlen (a_bytes a)) in
     if negb (a_maxoff a =? 0) && (n >? a_maxoff a) then
       if a_maxoff a <? sz then (EXF_E_MAXOFF, mkFlat (a_bytes a) (a_maxoff a) p)
-      else (0, spec_resize a (a_maxoff a) p)
-    else (0, spec_resize a n p).
+      else spec_grow ok a (a_maxoff a) p
+    else spec_grow ok a n p.
 
-Definition spec_truncate (ps : Z) (a : flat) (sz : Z) : Z * flat :=
+Definition spec_truncate (ps : Z) (ok : os_ok) (a : flat) (sz : Z) : Z * flat :=
   let n := rup sz ps in
   if negb (a_maxoff a =? 0) && (zlen (a_bytes a) <? n) && (n >? a_maxoff a) then (EXF_E_MAXOFF, a)
-  else (0, spec_resize a n (a_pol a)).
+  else spec_grow ok a n (a_pol a).
 
-Definition spec_write (ps : Z) (a : flat) (off : Z) (d : list Z) : Z * Z * flat :=
+Definition spec_write (ps : Z) (ok : os_ok) (a : flat) (off : Z) (d : list Z) : Z * Z * flat :=
   if negb (a_maxoff a =? 0) && (off + zlen d >? a_maxoff a) then (EXF_E_MAXOFF, 0, a)
   else
-    let '(rc, a1) := spec_ensure ps a (off + zlen d) in
+    let '(rc, a1) := spec_ensure ps ok a (off + zlen d) in
     if negb (rc =? 0) then (rc, 0, a1)
     else (0, zlen d, mkFlat (splice (a_bytes a1) off d) (a_maxoff a1) (a_pol a1)).
 
@@ -459,8 +477,8 @@ Definition abs (st : exf) : flat := mkFlat (file st) (maxoff st) (pol st).
 
 (* copy: the size request for the destination, then the bytes of the source range that exist are moved;
    a forward-overlapping copy may be refused (documented "todo" of iwp_copy_bytes) *)
-Definition spec_copy (ps : Z) (a : flat) (off siz noff rc : Z) (a' : flat) : Prop :=
-  let '(rc1, a1) := spec_ensure ps a (noff + siz) in
+Definition spec_copy (ps : Z) (ok : os_ok) (a : flat) (off siz noff rc : Z) (a' : flat) : Prop :=
+  let '(rc1, a1) := spec_ensure ps ok a (noff + siz) in
   if rc1 =? 0 then
     (rc = 0 /\ a' = mkFlat (splice (a_bytes a1) noff (pread (a_bytes a1) off siz)) (a_maxoff a1) (a_pol a1))
     \/ (rc = EXF_E_OVERFLOW /\ off < noff < off + siz /\ a' = a1)
@@ -468,17 +486,17 @@ Definition spec_copy (ps : Z) (a : flat) (off siz noff rc : Z) (a' : flat) : Pro
 
 (* what the flat array machine allows as the answer `r` and next state `a'` of one call; registering,
    removing and remapping windows and sync do not change it *)
-Definition spec_step_rel (ps : Z) (a : flat) (o : op) (r : out) (a' : flat) : Prop :=
+Definition spec_step_rel (ps : Z) (ok : os_ok) (a : flat) (o : op) (r : out) (a' : flat) : Prop :=
   match o with
-  | OWrite off d => spec_write ps a off d = (o_rc r, o_sp r, a')
+  | OWrite off d => spec_write ps ok a off d = (o_rc r, o_sp r, a')
   | ORead off n => o_rc r = 0 /\ o_data r = spec_read a off n /\ o_sp r = zlen (o_data r) /\ a' = a
-  | OCopy off siz noff => spec_copy ps a off siz noff (o_rc r) a'
-  | OTruncate sz => spec_truncate ps a sz = (o_rc r, a')
-  | OEnsure sz => spec_ensure ps a sz = (o_rc r, a')
+  | OCopy off siz noff => spec_copy ps ok a off siz noff (o_rc r) a'
+  | OTruncate sz => spec_truncate ps ok a sz = (o_rc r, a')
+  | OEnsure sz => spec_ensure ps ok a sz = (o_rc r, a')
   | OAddMmap _ _ _ | ORemoveMmap _ | ORemap | OSync => a' = a
   end.
 
-Inductive spec_run_rel (ps : Z) : flat -> list op -> list out -> flat -> Prop :=
-| SR_nil : forall a, spec_run_rel ps a [] [] a
-| SR_cons : forall a o r a1 os rs a2, spec_step_rel ps a o r a1 -> spec_run_rel ps a1 os rs a2 ->
-    spec_run_rel ps a (o :: os) (r :: rs) a2.
+Inductive spec_run_rel (ps : Z) (ok : os_ok) : flat -> list op -> list out -> flat -> Prop :=
+| SR_nil : forall a, spec_run_rel ps ok a [] [] a
+| SR_cons : forall a o r a1 os rs a2, spec_step_rel ps ok a o r a1 -> spec_run_rel ps ok a1 os rs a2 ->
+    spec_run_rel ps ok a (o :: os) (r :: rs) a2.
